@@ -2,14 +2,14 @@
 (* Implementation-shaped model of XalanTransformer's own bookkeeping, transcribed from             *)
 (* src/xalanc/XalanTransformer/XalanTransformer.{hpp,cpp}:                                          *)
 (*   m_params            XalanMap name -> XalanParamHolder {m_expression, m_value}; the string      *)
-(*                       overloads of setStylesheetParam assign m_expression, the XObjectPtr /       *)
-(*                       double / node overloads assign m_value; doTransform passes m_expression     *)
-(*                       to the processor when it is not empty, m_value otherwise (1352-1359)        *)
+(*                       overloads of setStylesheetParam assign m_expression and empty m_value, the  *)
+(*                       XObjectPtr / double / node overloads assign m_value and empty m_expression  *)
+(*                       (the last value set is the one that counts); doTransform passes             *)
+(*                       m_expression to the processor when it is not empty, m_value otherwise       *)
 (*   m_functions         installed external functions                                                *)
 (*   m_compiledStylesheets / m_parsedSources    owned objects                                        *)
-(*   m_errorMessage      CharVectorType, always >= 1 long.  parseSource empties it with              *)
-(*                       clear(); push_back(0).  compileStylesheet and doTransform "clear" it with    *)
-(*                       resize(1, '\0') - which keeps the first character of a longer vector        *)
+(*   m_errorMessage      CharVectorType, always >= 1 long.  parseSource, compileStylesheet and       *)
+(*                       doTransform empty it with clear(); push_back(0) before they do anything     *)
 (*   EnsureReset         destructor guard in doTransform: execution context and processor are reset   *)
 (*                       on every exit path; `ctx` is what the execution context holds               *)
 (* The engine itself is the uninterpreted function Engine (TransformerPool).  A call returns         *)
@@ -19,7 +19,8 @@ EXTENDS TransformerPool, Naturals, Sequences, FiniteSets, TLC
 NoFnI == [x \in {} |-> x]
 RestrictI(f, S) == [x \in S |-> f[x]]
 
-Holder0 == [expr |-> "none", value |-> "none"]
+(* emptied: ghost for the history generator - which slot the last setStylesheetParam of this name had to empty *)
+Holder0 == [expr |-> "none", value |-> "none", emptied |-> "none"]
 MInit == [holders |-> [k \in PoolPNames |-> Holder0], functions |-> [f \in PoolFNames |-> FALSE],
           ss |-> NoFnI, nss |-> 0, src |-> NoFnI, nsrc |-> 0,
           err |-> "", ctx |-> {},
@@ -31,20 +32,21 @@ MInit == [holders |-> [k \in PoolPNames |-> Holder0], functions |-> [f \in PoolF
 Effective(h) == IF h.expr # "none" THEN h.expr ELSE h.value
 EffParams(m) == [k \in PoolPNames |-> Effective(m.holders[k])]
 
-ResizeOne(err) == err            \* resize(1, '\0'): "" stays "", a message keeps its first character
 ClearProper(err) == ""           \* clear(); push_back(0)
 
 Ev(m, rec) == [m |-> m, ev |-> rec @@ [errEmpty |-> (m.err = "")]]
 
 ISetParam(m, k, v) ==
-  Ev([m EXCEPT !.holders[k] = IF v \in PoolExprVals THEN [@ EXCEPT !.expr = v] ELSE [@ EXCEPT !.value = v]],
+  Ev([m EXCEPT !.holders[k] = IF v \in PoolExprVals
+                              THEN [expr |-> v, value |-> "none", emptied |-> IF @.value # "none" THEN "value" ELSE "none"]
+                              ELSE [expr |-> "none", value |-> v, emptied |-> IF @.expr # "none" THEN "expr" ELSE "none"]],
      [e |-> "SetParam", k |-> k, v |-> v])
 IClearParams(m)   == Ev([m EXCEPT !.holders = [k \in PoolPNames |-> Holder0], !.paramsCleared = TRUE], [e |-> "ClearParams"])
 IInstallFn(m, f)  == Ev([m EXCEPT !.functions[f] = TRUE], [e |-> "InstallFn", f |-> f])
 IUninstallFn(m, f) == Ev([m EXCEPT !.functions[f] = FALSE, !.fnRemoved = TRUE], [e |-> "UninstallFn", f |-> f])
 
 ICompile(m, d) ==
-  LET m1 == [m EXCEPT !.err = ResizeOne(@)]
+  LET m1 == [m EXCEPT !.err = ClearProper(@)]
       st == StatusOf(CompileClass(d)) IN
   IF st = 0
   THEN Ev([m1 EXCEPT !.nss = @ + 1, !.ss = (m.nss + 1 :> d) @@ @], [e |-> "Compile", ss |-> d, status |-> 0, h |-> m.nss + 1])
@@ -63,7 +65,7 @@ IDestroySrc(m, h) == Ev([m EXCEPT !.src = RestrictI(@, DOMAIN @ \ {h})], [e |-> 
 (* doTransform(parsed source, compiled stylesheet | stylesheet source, target) *)
 IDoTransform(m, ssRef, srcDoc, srcRef) ==
   LET ssDoc == IF ssRef.k = "h" THEN m.ss[ssRef.h] ELSE ssRef.d
-      m1 == [m EXCEPT !.err = ResizeOne(@)]
+      m1 == [m EXCEPT !.err = ClearProper(@)]
       r == Engine(ssDoc, srcDoc, EffParams(m), m.functions)
       (* while the processor runs, the execution context holds state of this run; EnsureReset empties it on every path *)
       m2 == [m1 EXCEPT !.ctx = {}, !.err = IF r.status = 0 THEN @ ELSE "E"]
@@ -87,12 +89,4 @@ IFresh(ssDoc, srcDoc, ps, fs) ==
       t == ITransform(m0, [k |-> "i", d |-> ssDoc], [k |-> "i", d |-> srcDoc]).ev
   IN [e |-> "Fresh", ss |-> ssDoc, src |-> srcDoc, params |-> ps, fns |-> fs, status |-> t.status, out |-> t.out, errEmpty |-> t.errEmpty]
 
-(* ---- known deviations of this algorithm from the abstract life cycle (Transformer.tla) ------- *)
-(* key paramExprShadowsValue: a value set through the XObjectPtr / double overload is ignored while *)
-(* the holder still carries an expression string from an earlier setStylesheetParam of that name    *)
-KD_paramExprShadowsValue(m, k, v) == v \notin PoolExprVals /\ m.holders[k].expr # "none"
-(* key staleErrorMessage: a successful compileStylesheet, or transformation of a parsed-source      *)
-(* handle, that follows a failed call leaves the old message in getLastError()                      *)
-KD_staleErrorCompile(m, d)      == m.err # "" /\ StatusOf(CompileClass(d)) = 0
-KD_staleErrorTransform(m, srcRef, status) == m.err # "" /\ srcRef.k = "h" /\ status = 0
 =============================================================================
